@@ -102,7 +102,9 @@ class Gen:
         self.glossary = glossary
         self.theorems = []
         self.mid = 0
-        self.safe_points = []       # offsets where a fault construct may be inserted (between nodes, top level)
+        self.safe_points = []       # offsets where a fault construct may be inserted (between nodes, brace level 0)
+        self.brace = 0
+        self.argspans = []          # (open offset, close offset, kind) of braced arguments of declared macros
 
     # ---- printer
     def w(self, t):
@@ -166,6 +168,8 @@ class Gen:
         r = self.rnd
         n = n or r.randint(1, 5)
         for i in range(n):
+            if self.brace == 0 and not self.in_detached and not self.in_head and not self.in_twice:
+                self.safe_points.append(self.pos())
             self.node(allow_par)
             if i < n - 1:
                 self.ws(par=allow_par and r.random() < .15)
@@ -173,12 +177,17 @@ class Gen:
     def group(self, n=None, allow_par=False, tag=None):
         if tag:
             self.path.append(tag)
+        st = self.pos()
         self.w('{')
+        self.brace += 1
         if self.rnd.random() < .2:
             self.w(self.rnd.choice([' ', '\n']))
         self.seq(n, allow_par)
         if self.rnd.random() < .2:
             self.w(self.rnd.choice([' ', '\n']))
+        self.brace -= 1
+        if tag in ('declarg', 'userarg', 'heading', 'footnote', 'caption', 'twice'):
+            self.argspans.append((st, self.pos(), tag))
         self.w('}')
         if tag:
             self.path.pop()
@@ -791,11 +800,12 @@ GLSDEFS = ('\\gls@defglossaryentry{ylab}%\n{%\nname={yglsname},%\ntext={yglstext
 
 
 def random_document(rnd, size=None, lang='en', kinds=None, max_depth=5, glossary_file=None, theorems=True,
-                    end_pressure=None, pack='*,.yvm.ext'):
+                    end_pressure=None, pack='*,.yvm.ext', preamble_extra=''):
     pk = pkgs_of(pack)
     if 'glossaries' not in pk:
         glossary_file = None
     g = Gen(rnd, lang=lang, kinds=kinds, max_depth=max_depth, glossary=bool(glossary_file), pkgs=pk)
+    g.w(preamble_extra)
     g.w(PREAMBLE)
     if theorems:
         g.theorems = [('ythm', 'Ytheorem'), ('ylem', 'Ylemma')]
@@ -817,6 +827,8 @@ def random_document(rnd, size=None, lang='en', kinds=None, max_depth=5, glossary
     d.body_start = g.body_start
     d.pack = pack
     d.gen = g
+    d.safe_points = g.safe_points
+    d.argspans = g.argspans
     return d
 
 
